@@ -303,7 +303,31 @@ pub fn run_path(scn: &Value) -> Value {
                         scheme = scheme_of(&scheme_s);
                         halgs = true;
                         if op == "pem" {
-                            PublicKey::from_pem_spki(&pem_of_spki(&std_spki), scheme.clone()).map_err(|e| e.to_string())
+                            // the same armour in several textual spellings: all must give the same key
+                            let base = pem_of_spki(&std_spki);
+                            let spellings = [base.clone(), format!("{base}\n"), base.replace('\n', "\r\n"), format!("\n{base}\n\n")];
+                            let mut first: Option<PublicKey> = None;
+                            let mut res: Result<PublicKey, String> = Err("no spelling".into());
+                            for (n, sp) in spellings.iter().enumerate() {
+                                match PublicKey::from_pem_spki(sp, scheme.clone()) {
+                                    Ok(k) => {
+                                        if let Some(f) = &first {
+                                            if *f != k {
+                                                res = Err(format!("PEM spelling {n} gives another key"));
+                                                break;
+                                            }
+                                        } else {
+                                            first = Some(k.clone());
+                                        }
+                                        res = Ok(k);
+                                    }
+                                    Err(e) => {
+                                        res = Err(format!("PEM spelling {n} rejected: {e}"));
+                                        break;
+                                    }
+                                }
+                            }
+                            res
                         } else {
                             PublicKey::from_spki(&std_spki, scheme.clone()).map_err(|e| e.to_string())
                         }
